@@ -2,8 +2,15 @@
   Cosi.Driver.Helpers — line protocol of engine `helpers` (C03, C04): environment
   store ops as in `store-seq`, `spawn` a helper call as an actor, `step` one actor by
   one atomic action (store op or watch delivery).
+
+  Header `remote=1`: every actor's state handle is the gRPC client adapter in front of a server
+  wrapping the (gated) state — `Cosi.Model.WrapRemote`. Model mode runs `genVia` (status-code
+  tables, write-back, the three watch rules: all regenerated); spec mode runs what C03 + C11 demand
+  of that path: results as the direct call's seen through the client API, EVERY watch event handed
+  to the helper (a failed watch included), the error class of a native Teardown RPC left open.
 -/
-import Cosi.Model.Wrap
+import Cosi.Model.WrapRemote
+import Cosi.Spec.Remote
 import Cosi.Driver.Watch
 
 namespace Cosi.Driver.Helpers
@@ -68,17 +75,32 @@ def respStr (req : Req) : Resp → String
   | .event e => evStr e
   | .watchOk => "watchok"
 
-def init (_spec : Bool) (a : List (String × String)) : HSys :=
-  { ws := Cosi.Driver.Watch.init false a }
+structure St where
+  h : HSys := {}
+  remote : Bool := false
+  spec : Bool := false
+deriving Inhabited
 
-def stepLine (s : HSys) (op : String) (a : List (String × String)) : HSys × String :=
+def init (spec : Bool) (a : List (String × String)) : St :=
+  { h := { ws := Cosi.Driver.Watch.init false a }, remote := arg a "remote" == "1", spec := spec }
+
+/-- what the properties demand of the remote path, independent of the regenerated gRPC facts -/
+def specVia : Via :=
+  { rules := Remote.goodWatchRules,
+    op := fun ws now o => let (ws', out) := ws.storeOp now o; (ws', Spec.Remote.viewOf (Remote.ROp.ofOp o) out),
+    ret := fun _ _ r => match r with
+      | .err _ => .err "*"
+      | r => r }
+
+def stepHSys (remote spec : Bool) (s : HSys) (op : String) (a : List (String × String)) : HSys × String :=
   match op with
   | "spawn" =>
     match parseCall a with
     | some c => (s.spawn (argNat a "a") c, "ok")
     | none => (s, "bad-op")
   | "step" =>
-    let (s', o) := s.stepActor (argNat a "a") (argNat a "t")
+    let (s', o) := if remote then s.stepActorVia (if spec then specVia else genVia) (argNat a "a") (argNat a "t")
+                   else s.stepActor (argNat a "a") (argNat a "t")
     (s', match o with
       | .noActor => "noactor"
       | .finished _ => "finished"
@@ -99,5 +121,9 @@ def stepLine (s : HSys) (op : String) (a : List (String × String)) : HSys × St
     | some o =>
       let (s', out) := s.envOp (argNat a "t") o
       (s', outStr out (arg a "ns") (arg a "typ"))
+
+def stepLine (s : St) (op : String) (a : List (String × String)) : St × String :=
+  let (h', o) := stepHSys s.remote s.spec s.h op a
+  ({ s with h := h' }, o)
 
 end Cosi.Driver.Helpers
